@@ -514,6 +514,28 @@ def run_faults(case):
             check_recovery(fs, 'base', path, full, f'{L}: fault {kind}{"" if k is None else " at byte " + str(k)}')
             n_faults += 1
         labels = [L]
+        if case.get('explicit_cache'):
+            # the documented cache= argument (a str or a Path): same fallback behaviour as the default cache file
+            from pathlib import Path
+
+            from gemdat.trajectory import Trajectory
+
+            ec = os.path.join(fs.dir, 'my-own-name.cache')
+            arg = ec if case['explicit_cache'] == 'str' else Path(ec)
+            traj_equal(call(spec, fs.files, 'base', cache=arg), ref, f'{L}: first load with cache={case["explicit_cache"]}')
+            if not os.path.exists(ec):
+                raise Violation('cache-written', f'{L}: no file at the explicit cache path ({case["explicit_cache"]})')
+            efull = open(ec, 'rb').read()
+            for f in case['faults'][:2]:
+                k = min(max(int(f.get('frac', 0) * len(efull)), 0), len(efull) - 1) if f['kind'] == 'truncate' else None
+                damage(ec, f['kind'], k, efull)
+                got_e = call(spec, fs.files, 'base', cache=arg)
+                traj_equal(got_e, ref, f'{L}: explicit cache given as {case["explicit_cache"]}, fault {f["kind"]}{"" if k is None else " at byte " + str(k)}')
+                back_e = gcall(Trajectory.from_cache, arg, allow=(Exception,))
+                if isinstance(back_e, Raised):
+                    raise Violation('complete-cache-left-behind', f'{L}: explicit cache ({case["explicit_cache"]}) does not load after recovery from {f["kind"]}: {type(back_e.exc).__name__}')
+                traj_equal(back_e, ref, f'{L}: explicit cache re-read after recovery')
+            labels.append('explicit-cache-' + case['explicit_cache'])
         if case.get('sibling'):
             # a second run of the same system in the same directory under a similar name: each source keeps its own trajectory
             spec2, sib, ref2 = add_sibling(fs, case['sibling'])
@@ -559,7 +581,8 @@ def fault_cases(draw, tier):
     spec = draw(specs())
     faults = draw(st.lists(st.one_of(st.builds(lambda fr: {'kind': 'truncate', 'frac': fr}, st.floats(0, 1)), st.sampled_from([{'kind': k} for k in FAULT_KINDS])), min_size=1, max_size=5))
     variants = draw(st.lists(st.sampled_from(VARIANTS[spec['loader']][1:]), max_size=3, unique=True))
-    return {'spec': spec, 'faults': faults, 'variants': variants, 'sibling': draw(st.sampled_from([None, None, 'dot', 'underscore', 'longer', 'double-ext']))}
+    return {'spec': spec, 'faults': faults, 'variants': variants, 'sibling': draw(st.sampled_from([None, None, 'dot', 'underscore', 'longer', 'double-ext'])),
+            'explicit_cache': draw(st.sampled_from([None, None, 'str', 'path']))}
 
 
 # ----------------------------------------------------------------------------- save / load round trip
@@ -577,8 +600,18 @@ def run_roundtrip(case):
             # the cache file is re-used: it already holds a longer trajectory
             big = np.concatenate([path] * 4, axis=0)
             gcall(cases.trajectory(big - np.floor(big), case['symbols'], case['lattice']['matrix'], case['time_step'], case['temperature'], case['species_kind']).to_cache, fn)
+        rep0, c0, b0 = bool(t.coords_are_displacement), np.array(t.coords), (None if t.base_positions is None else np.array(t.base_positions))
         gcall(t.to_cache, fn)
         back = gcall(Trajectory.from_cache, fn, clause='save-load-identical')
+        # the stored state first: identical means the same representation holding the same numbers (reading .positions would re-wrap and hide differences)
+        if bool(back.coords_are_displacement) != rep0 or np.shape(back.coords) != c0.shape or not np.array_equal(np.asarray(back.coords), c0):
+            raise Violation('save-load-identical', f'stored coordinates differ after to_cache/from_cache (saved in {case["mode"]} representation): representation {rep0} -> {bool(back.coords_are_displacement)}' + ('' if np.shape(back.coords) != c0.shape else f', values differ by up to {np.abs(np.asarray(back.coords) - c0).max():.3e}'))
+        if rep0 and (back.base_positions is None or not np.array_equal(np.asarray(back.base_positions), b0)):
+            raise Violation('save-load-identical', 'base positions differ after to_cache/from_cache')
+        if rep0:
+            da, db = np.asarray(gcall(back.distances_from_base_position)), np.asarray(gcall(t.distances_from_base_position))
+            if da.shape != db.shape or np.abs(da - db).max() > 1e-12 * max(1.0, np.abs(db).max()):
+                raise Violation('save-load-identical', 'distances from the base position differ after to_cache/from_cache')
         ref = cases.trajectory(path - np.floor(path), case['symbols'], case['lattice']['matrix'], case['time_step'], case['temperature'], case['species_kind'])
         pa, pb = np.asarray(back.positions), np.asarray(ref.positions)
         if pa.shape != pb.shape or np.abs(((pa - pb + 0.5) % 1.0) - 0.5).max() > (0 if case['mode'] == 'positions' else 1e-9):
